@@ -9,3 +9,7 @@ open Gossamer.C36
 #print axioms C36_increment_first_not_good
 #print axioms C36_round_not_monotone
 #print axioms run_safe
+#print axioms C36_epoch_data_not_lost
+#print axioms C36_config_data_not_lost
+#print axioms C36_votes_durable
+#print axioms C36_own_round_justified
